@@ -130,11 +130,14 @@ def work_exact(arg):
 def work_noisy(arg):
     name, k, scale = arg[:3]
     origin = len(arg) > 3 and arg[3]
+    opt = arg[4] if len(arg) > 4 else None
     out = {'ev': 0, 'nt': 0, 'viol': [], 'noreturn': 0}
     p, n = noisy_sets(scale)[k]
     if origin:      # the measured (0, 0) starting point in the data
         p, n = numpy.concatenate([[0.0], p]), numpy.concatenate([[0.0], n])
     kw = {}
+    if opt:
+        kw['optimization_params'] = dict(opt)
     o = core.call(fit, name, p, n, **kw)
     if name == 'Virial' and not o.ok:
         kw['optimization_params'] = {'add_point': True}
@@ -154,7 +157,7 @@ def work_noisy(arg):
         return out
     if abs(r.value - iso.model.rmse) > 1e-9 * max(r.value, 1e-300):
         out['viol'].append(core.make_violation({'check': 'rmse-identity', 'model': name},
-                                               f'{name} on noisy data set {k}{" with the (0, 0) point" if origin else ""}: reported rmse {iso.model.rmse:.12g}, recomputed {r.value:.12g}', {'model': name, 'data_set': k, 'origin': bool(origin)},
+                                               f'{name} on noisy data set {k}{" with the (0, 0) point" if origin else ""}: reported rmse {iso.model.rmse:.12g}, recomputed {r.value:.12g}', {'model': name, 'data_set': k, 'origin': bool(origin), 'optimization_params': opt},
                                                r.value, iso.model.rmse))
     for key, (lo, hi) in iso.model.param_bounds.items():
         if not (lo - 1e-12 <= iso.model.params[key] <= hi + 1e-12):
@@ -273,6 +276,26 @@ def check_misc(ctx):
         want = {'ads': {'K': 5.0, 'n_m': 4.0 * scale}, 'des': {'K': 9.0, 'n_m': 4.2 * scale}}[br]
         if f0.ok and core.relerr([f0.value.model.params['K'], f0.value.model.params['n_m']], [want['K'], want['n_m']]) > 1e-5:
             ctx.violate(core.make_violation({'check': 'branch-isolation', 'branch': br, 'kind': 'wrong-branch-fitted'}, f'fit of branch {br} gives {f0.value.model.params}, generator {want}', {}))
+    # the same data WITHOUT branch marks (the split is guessed) in tables with other row labels; also fitted directly from the table
+    for iname, idx in (('0..n-1', None), ('1..n', list(range(1, len(pa) + len(pd_) + 1))), ('cut out of a larger table', list(range(7, 7 + len(pa) + len(pd_)))),
+                       ('text labels', [f'pt{i}' for i in range(len(pa) + len(pd_))])):
+        df = pandas.DataFrame({'pressure': list(pa) + list(pd_), 'loading': list(na) + list(nd)}, index=idx)
+        for route in ('point isotherm, then fit', 'ModelIsotherm(isotherm_data=...)'):
+            for br in ('ads', 'des'):
+                if route.startswith('point'):
+                    o = core.call(lambda: pygaps.ModelIsotherm.from_pointisotherm(
+                        pygaps.PointIsotherm(isotherm_data=df.copy(), pressure_key='pressure', loading_key='loading', material='c12', adsorbate='N2', temperature=T, **U),
+                        branch=br, model='Langmuir'))
+                else:
+                    o = core.call(pygaps.ModelIsotherm, isotherm_data=df.copy(), pressure_key='pressure', loading_key='loading', branch=br, model='Langmuir', material='c12',
+                                  adsorbate='N2', temperature=T, **U)
+                ev += 1
+                nt += 1
+                want = {'ads': {'K': 5.0, 'n_m': 4.0 * scale}, 'des': {'K': 9.0, 'n_m': 4.2 * scale}}[br]
+                if not o.ok or core.relerr([o.value.model.params['K'], o.value.model.params['n_m']], [want['K'], want['n_m']]) > 1e-5:
+                    ctx.violate(core.make_violation({'check': 'branch-isolation', 'branch': br, 'kind': 'guessed split', 'index': 'default' if idx is None else 'other labels'},
+                                                    f'fit of branch {br} of a table without branch marks (row labels {iname}; {route}): {o.value.model.params if o.ok else o.brief()}, '
+                                                    f'generator of that branch {want}', {'row_labels': iname, 'route': route}))
     # --- from_modelisotherm and refit
     mi = fit('Toth', p, ml.ref_loading('Toth', {'n_m': 5.0 * scale, 'K': 12.0, 't': 0.7}, p), note='meta', run=3.5)
     for kw, tag in ((dict(pressure_points=[0.05, 0.2, 0.6, 1.5]), 'pressure points'), (dict(loading_points=[0.5 * scale, 2.0 * scale, 3.5 * scale]), 'loading points'), ({}, 'default grid')):
@@ -343,6 +366,9 @@ def run(ctx):
         ctx.track('exact_fit_residual', r['worst'], 1e-5)
     from pygaps.modelling import _GUESS_MODELS, _MODELS
     jobs = [(name, k, ctx.scale) for name in _MODELS for k in range(4)] + [(name, k, ctx.scale, True) for name in _MODELS for k in range(4)]
+    # the documented error is the rms deviation whatever options are handed to the optimiser
+    jobs += [(name, k, ctx.scale, False, opt) for name in _MODELS if name != 'Virial' for k in (0, 2)
+             for opt in ({'loss': 'soft_l1'}, {'loss': 'huber', 'f_scale': 0.05}, {'loss': 'cauchy'}, {'max_nfev': 2000}, {'x_scale': 'jac'})]
     res = core.pmap(work_noisy, jobs, chunk=2)
     nonpg = []
     for r in res:
